@@ -17,6 +17,7 @@ SPECIFICATION Spec
 CONSTANTS
   AllowDupStart = FALSE
   AllowSilentInit = FALSE
+  AllowRestartRace = FALSE
   AllowDoubleError = FALSE
   SInsts = {}
   SIds = {}
